@@ -1137,16 +1137,18 @@ func isDataAttribute(val string) bool {
 	if !dataAttribute.MatchString(val) {
 		return false
 	}
-	rest := strings.Split(val, "data-")
-	if len(rest) == 1 {
+	// everything after the first "data-" is the name to check, even when it
+	// contains "data-" again
+	rest := strings.TrimPrefix(val, "data-")
+	if rest == val {
 		return false
 	}
 	// data-xml* is invalid.
-	if dataAttributeXMLPrefix.MatchString(rest[1]) {
+	if dataAttributeXMLPrefix.MatchString(rest) {
 		return false
 	}
 	// no uppercase or semi-colons allowed.
-	if dataAttributeInvalidChars.MatchString(rest[1]) {
+	if dataAttributeInvalidChars.MatchString(rest) {
 		return false
 	}
 	return true
